@@ -1,7 +1,11 @@
 (* Model of ensurePort (network.go), NewClientTransport / NewComponentTransport
-   (transport.go, the choice of transport and of the dial address only) and a
+   (transport.go, the choice of transport and of the dial address only),
+   WebsocketTransport.IsSecure, extractParams / NewChecker (cert_checker.go) and a
    transcription of Go's net.SplitHostPort (net/ipsock.go), used as the
    specification of "a valid host:port that net.Dial accepts syntactically".
+   The transport choice and the checker are modelled as REPAIRED (a scheme is
+   ws / wss in any letter case followed by "://"; the checker normalises with
+   ensurePort + net.SplitHostPort).
    Strings are byte strings (str = list N, one element per byte).
    Executable definitions only. *)
 From Coq Require Import List ZArith NArith Bool.
@@ -13,8 +17,10 @@ Definition c_colon : N := 58%N.   (* ':' *)
 Definition c_lbr   : N := 91%N.   (* '[' *)
 Definition c_rbr   : N := 93%N.   (* ']' *)
 Definition c_minus : N := 45%N.   (* '-' *)
-Definition s_ws    : str := [119; 115; 58]%N.        (* "ws:"  *)
-Definition s_wss   : str := [119; 115; 115; 58]%N.   (* "wss:" *)
+Definition c_slash : N := 47%N.   (* '/' *)
+Definition sch_ws  : str := [119; 115]%N.        (* "ws"  *)
+Definition sch_wss : str := [119; 115; 115]%N.   (* "wss" *)
+Definition s_sep   : str := [58; 47; 47]%N.      (* "://" *)
 
 Definition len (s : str) : Z := Z.of_nat (length s).
 
@@ -51,6 +57,8 @@ Fixpoint count (c : N) (s : str) : nat :=
   | x :: s' => ((if N.eqb x c then 1 else 0) + count c s')%nat
   end.
 
+Definition has (c : N) (s : str) : bool := existsb (N.eqb c) s.
+
 (* ---- strconv.Itoa ---- *)
 (* decimal digits of n, most significant first, prepended to acc; the fuel is
    the number of binary digits + 1, never less than the number of decimal digits *)
@@ -84,8 +92,24 @@ Inductive transport :=
 | Tcp (addr : str)            (* *XMPPTransport,      Config.Address = addr *)
 | NotSupported.               (* error wrapping ErrTransportProtocolNotSupported *)
 
+(* ASCII lower case of one byte *)
+Definition lower (c : N) : N :=
+  if (65 <=? c)%N && (c <=? 90)%N then (c + 32)%N else c.
+
+(* hasURLScheme (transport.go): len(addr) >= n+3 && EqualFold(addr[:n], scheme) &&
+   addr[n:n+3] == "://", for a lower-case ASCII scheme *)
+Definition has_url_scheme (addr scheme : str) : bool :=
+  let n := length scheme in
+  Nat.leb (n + 3) (length addr)
+  && str_eqb (map lower (firstn n addr)) scheme
+  && str_eqb (firstn 3 (skipn n addr)) s_sep.
+
+(* isWebsocketAddress *)
 Definition scheme_prefixed (addr : str) : bool :=
-  has_prefix s_ws addr || has_prefix s_wss addr.
+  has_url_scheme addr sch_ws || has_url_scheme addr sch_wss.
+
+(* WebsocketTransport.IsSecure *)
+Definition ws_is_secure (addr : str) : bool := has_url_scheme addr sch_wss.
 
 Definition client_transport (addr : str) : transport :=
   if scheme_prefixed addr then WebSocket addr else Tcp (ensure_port addr 5222).
@@ -129,8 +153,21 @@ Definition split_host_port (hp : str) : split_res :=
     let host := firstn (Z.to_nat i) hp in
     if 0 <=? index c_colon host then SplitErr TooManyColons else finish host 0 0.
 
+(* ---- cert_checker.go: extractParams as used by NewChecker ---- *)
+(* net.JoinHostPort *)
+Definition join_host_port (h p : str) : str :=
+  if 0 <=? index c_colon h then c_lbr :: h ++ c_rbr :: c_colon :: p else h ++ c_colon :: p.
+
+(* Some (address to dial, host) or None for an error *)
+Definition checker_params (addr : str) : option (str * str) :=
+  let full := ensure_port addr 5222 in
+  match split_host_port full with
+  | SplitErr _ => None
+  | SplitOk h p =>
+      Some (match p with [] => join_host_port h (itoa 5222) | _ => full end, h)
+  end.
+
 (* ---- host / port forms, as boolean predicates ---- *)
-Definition has (c : N) (s : str) : bool := existsb (N.eqb c) s.
 Definition nonempty (s : str) : bool := match s with [] => false | _ => true end.
 Definition no_brackets (s : str) : bool := negb (has c_lbr s) && negb (has c_rbr s).
 
